@@ -25,7 +25,7 @@ from ..lin import Facts
 from .. import astq
 from ._c05_arrays import (AInterp, Q, Env, Uneval, Nd, Src, Buf, View, Cat, Flat, Resh2, ColAgg, Tile, Rep, Elem, Ser,
                           SYMDEFS, CONST_VECS, ZERO, ONE, OOB, const_vec, entails, sym_elem, sym_mod, subst_val, vec_len, is_nan)
-from .c05 import Ob, eq_lin, feasible, nonvacuous, loop_envs, resolve, fmt, witness_text, construct, run_method
+from .c05 import check_fh_models, check_shift_model, Ob, eq_lin, feasible, nonvacuous, loop_envs, resolve, fmt, witness_text, construct, run_method
 
 NAIVE = "sktime/forecasting/naive.py"
 TREND = "sktime/forecasting/trend.py"
@@ -847,6 +847,41 @@ def rule_in_sample(ctx, repo):
         ctx.undecided("R4", tag + ":splitter", "split is not (range, horizon + offset): %r" % (val,), ctx.loc(kk.module, sfn))
         return
     train, test = val.items
+    # the public split() that _predict_moving_cutoff iterates clips the windows: position 0 must survive, negatives must go
+    hit3 = repo.lookup_method(scls, "split")
+    if hit3 is None:
+        ctx.undecided("R4", tag + ":clip", "the splitter has no split()", ctx.loc(kk.module, sfn))
+    else:
+        k3, f3 = hit3
+        it3 = AInterp(repo, scenario={"lit_1.is_all_out_of_sample": True}, hooks=make_hooks(Rec()), no_inline=NO_INLINE + ("_check_y",))
+        s3 = construct(repo, it3, scls, {p_: v_ for p_, v_ in vals.items()})
+        _, fin3 = it3.run_function(Frame(k3.module, f3, scls, k3), {"self": s3, "y": Arr("y", N, "index")}, State(facts=f.copy()))
+        loc3 = ctx.loc(k3.module, f3)
+        parts = None
+        if len(fin3.yields) == 1 and isinstance(fin3.yields[0].value, Tup) and len(fin3.yields[0].value.items) == 2:
+            parts = fin3.yields[0].value.items
+        if parts is None:
+            ctx.undecided("R4", tag + ":clip", "split() does not yield one (train, test) pair per inner split: %r" % (fin3.yields,), loc3)
+        else:
+            from ..absint import Filt
+            for nm, part in (("train", parts[0]), ("test", parts[1])):
+                c3 = "%s:clip:%s" % (tag, nm)
+                if isinstance(part, (Rng, Vec)):
+                    ctx.ok("R4", c3, "split() hands the %s window on unclipped" % nm, loc3)
+                elif isinstance(part, Filt) and isinstance(part.base, (Rng, Vec)):
+                    b = as_lin_val(part.bound)
+                    keeps0 = b is not None and b.is_const() and ((part.op == ">=" and b.const == 0) or (part.op == ">" and b.const == -1))
+                    if b is not None and b.is_const() and part.op in (">=", ">"):
+                        ctx.check(keeps0, "R4", c3, "split() keeps the positions >= 0 of the %s window" % nm,
+                                  "split() keeps the %s positions `%s %s`: position 0 is %s, so the in-sample prediction of the second "
+                                  "training point (window = position 0 only) %s" % (
+                                      nm, part.op, b, "dropped" if (part.op == ">" and b.const >= 0) or (part.op == ">=" and b.const > 0) else "kept but negative positions too",
+                                      "gets an empty update and the cutoff does not move"), loc3,
+                                  witness={"n": 20, "fh": [-18], "window": [0], "clipped_to": "[]" if not keeps0 else "?"})
+                    else:
+                        ctx.undecided("R4", c3, "split() filters the %s window with `%s %r`" % (nm, part.op, part.bound), loc3)
+                else:
+                    ctx.undecided("R4", c3, "split() yields %r for the %s window" % (part, nm), loc3)
     envs = []
     for n in (5, 8):
         for w in (1, 3):
@@ -1462,6 +1497,89 @@ def rule_forwarding(ctx, repo):
               "Deseasonalizer(...) does not receive sp=self.sp, model='multiplicative'", ctx.loc(mod, fn))
 
 
+def check_fh_caches(ctx, repo, rule):
+    """(H2) conversions of the horizon may be cached only under a key that contains every argument: a repo-local
+    caching decorator whose stored value is selected without looking at an argument it forwards to the method serves
+    the result of the first cutoff for every later cutoff."""
+    cls = repo.cls("sktime/forecasting/base/_fh.py:ForecastingHorizon")
+    mod = cls.module
+    for name, fn in sorted(cls.methods.items()):
+        for dec in fn.decorator_list:
+            d = dec.func if isinstance(dec, ast.Call) else dec
+            sym = repo.resolve_expr(mod, d)
+            c = "ForecastingHorizon.%s:cache-key" % name
+            if sym is None or sym.kind != "func":
+                continue  # property / staticmethod / functools.lru_cache (keyed by all arguments: external, trusted)
+            dfn = sym.target
+            outer_params = astq.param_names(dfn)
+            inners = [n for n in dfn.body if isinstance(n, ast.FunctionDef)]
+            if len(inners) != 1 or not outer_params:
+                continue
+            w = inners[0]
+            meth = outer_params[0]
+            calls = [n for n in ast.walk(w) if isinstance(n, ast.Call) and isinstance(n.func, ast.Name) and n.func.id == meth]
+            stores = [n for n in ast.walk(w) if isinstance(n, ast.Call) and dotted(n.func) == "setattr" and len(n.args) == 3] + \
+                     [n for n in ast.walk(w) if isinstance(n, ast.Assign) and any(isinstance(t, ast.Subscript) for t in n.targets)]
+            if not calls or not stores:
+                continue  # not a memoising wrapper (e.g. a delegator)
+            wparams = astq.all_param_names(w)
+            forwarded = set()
+            for cl in calls:
+                for a in list(cl.args) + [k.value for k in cl.keywords]:
+                    for n in ast.walk(a):
+                        if isinstance(n, ast.Name) and n.id in wparams:
+                            forwarded.add(n.id)
+            keyvars = set()
+            for st_ in stores:
+                if isinstance(st_, ast.Call):
+                    key_exprs = [st_.args[0], st_.args[1]]
+                else:
+                    key_exprs = [t.slice for t in st_.targets if isinstance(t, ast.Subscript)] + [t.value for t in st_.targets if isinstance(t, ast.Subscript)]
+                for ke in key_exprs:
+                    ke = astq.inline_locals(w, ke)
+                    for n in ast.walk(ke):
+                        if isinstance(n, ast.Name) and n.id in wparams:
+                            keyvars.add(n.id)
+            missing = sorted(forwarded - keyvars)
+            loc = ctx.loc(sym.module, dfn)
+            if missing:
+                ctx.violation(rule, c, "%s is wrapped by the caching decorator %s, which stores the result under a key that does not contain "
+                              "the argument(s) %s it forwards to the method: after the cutoff moves (update, in-sample moving cutoff, the "
+                              "same horizon object used by another forecaster) the conversion for the first cutoff is returned"
+                              % (name, dfn.name, missing), loc,
+                              witness={"history": "fh.%s(cutoff=23); fh.%s(cutoff=27) returns the value computed for 23" % (name, name),
+                                       "ignored_arguments": missing})
+            else:
+                ctx.ok(rule, c, "the cache of %s is keyed by every forwarded argument" % name, loc)
+    ctx.ok(rule, "ForecastingHorizon:cache-decorators", "caching decorators on horizon conversions examined", ctx.loc(mod, cls.node))
+
+
+def check_theta_alignment(ctx, repo):
+    """R6 (dependency of ThetaForecaster): the forecasts are re-seasonalised by Deseasonalizer._align_seasonal; its alignment
+    formula is decided by C13-R4 -- that rule is evaluated here and reported under this property."""
+    try:
+        from . import c13
+        from ..report import Ctx
+        sub = Ctx("C13", repo, ctx.tier)
+        c13.check_alignment(sub, repo)
+    except AnalysisError as e:
+        ctx.undecided("R6", "ThetaForecaster:re-seasonalising", "C13-R4 could not be evaluated: %s" % e, None)
+        return
+    except Exception as e:  # the other property's module is not under this check's control
+        ctx.undecided("R6", "ThetaForecaster:re-seasonalising", "C13-R4 could not be evaluated: %r" % (e,), None)
+        return
+    if not sub.results:
+        ctx.undecided("R6", "ThetaForecaster:re-seasonalising", "C13-R4 produced no instance", None)
+    for r in sub.results:
+        c = "ThetaForecaster:re-seasonalising:" + r["construct"]
+        if r["verdict"] == "HOLDS":
+            ctx.ok("R6", c, r["detail"], r["loc"])
+        elif r["verdict"] == "VIOLATION":
+            ctx.violation("R6", c, "the seasonal factors multiplied onto the theta forecasts are misaligned: " + str(r["detail"]), r["loc"], r.get("witness"))
+        else:
+            ctx.undecided("R6", c, r["detail"], r["loc"])
+
+
 def run(ctx):
     repo = ctx.repo
     ctx.explain("C11: NaiveForecaster.fit/_predict_last_window interpreted abstractly for 12 scenarios (strategy x sp x window); "
@@ -1479,10 +1597,15 @@ def run(ctx):
     rule_moving_cutoff(ctx, repo)
     rule_time_axis(ctx, repo)
     rule_forwarding(ctx, repo)
+    check_theta_alignment(ctx, repo)
+    check_fh_models(ctx, repo, "R2", which=("to_indexer",))
+    check_fh_models(ctx, repo, "R5", which=("to_absolute_int",))
+    check_fh_caches(ctx, repo, "R5")
+    check_shift_model(ctx, repo, "R3")
     # instance counts on commit 132f3d5 (+ fix 7857d98): R1 46, R2 76, R3 20, R4 8, R5 14, R6 88
     ctx.floor("R1", 45)
     ctx.floor("R2", 40)
     ctx.floor("R3", 8)
-    ctx.floor("R4", 12)
+    ctx.floor("R4", 14)
     ctx.floor("R5", 15)
     ctx.floor("R6", 80)
